@@ -6,24 +6,44 @@ import (
 )
 
 func baseParseStatement(p *Parser) ast.Statement {
+	// A failed sub-parser returns a nil pointer. It must not be wrapped in the
+	// ast.Statement interface: the wrapped value compares unequal to nil and
+	// would end up as an entry of a statement list.
 	switch p.CurrentToken.Type {
 	case token.LET:
-		return p.ParseLetStatement()
+		if stmt := p.ParseLetStatement(); stmt != nil {
+			return stmt
+		}
 	case token.FUNCTION:
-		return p.ParseFunctionStatement()
+		if stmt := p.ParseFunctionStatement(); stmt != nil {
+			return stmt
+		}
 	case token.RETURN:
-		return p.ParseReturnStatement()
+		if stmt := p.ParseReturnStatement(); stmt != nil {
+			return stmt
+		}
 	case token.IF:
-		return p.ParseIfStatement()
+		if stmt := p.ParseIfStatement(); stmt != nil {
+			return stmt
+		}
 	case token.WHILE:
-		return p.ParseWhileStatement()
+		if stmt := p.ParseWhileStatement(); stmt != nil {
+			return stmt
+		}
 	case token.FOR:
-		return p.ParseForStatement()
+		if stmt := p.ParseForStatement(); stmt != nil {
+			return stmt
+		}
 	case token.LBRACE:
-		return p.ParseBlockStatement()
+		if stmt := p.ParseBlockStatement(); stmt != nil {
+			return stmt
+		}
 	default:
-		return p.ParseExpressionStatement()
+		if stmt := p.ParseExpressionStatement(); stmt != nil {
+			return stmt
+		}
 	}
+	return nil
 }
 
 func baseParseExpression(p *Parser, precedence int) ast.Expression {
